@@ -94,6 +94,29 @@ def traces(rep, tier, seed):
     return out
 
 
+def apalache_inductive():
+    """extra (thorough tier): Apalache discharges the inductive invariant of FVLifecycleInd - base case,
+    inductive step from ANY state satisfying it, and the consequence C09_FreshAtUseUnshared - which
+    extends the bounded TLC result to histories of every length (pools of 3 variables / 3 BC objects)"""
+    import shutil
+    import subprocess
+    if not shutil.which("apalache-mc"):
+        return {"status": "apalache-mc not available"}
+    out = tlcrun.fresh("apalache")
+    res = {}
+    for name, args in (("base", ["--init=Init", "--inv=IndInv", "--length=0"]),
+                       ("step", ["--init=IndInit", "--inv=IndInv", "--length=1"]),
+                       ("consequence", ["--init=IndInit", "--inv=C09_FreshAtUseUnshared", "--length=0"])):
+        try:
+            p = subprocess.run(["apalache-mc", "check"] + args + [f"--out-dir={out}", "MC_FVLifecycleInd.tla"],
+                               cwd=tlcrun.SPEC, capture_output=True, text=True, timeout=900)
+            res[name] = "NoError" if "The outcome is: NoError" in p.stdout else "FAILED"
+        except subprocess.TimeoutExpired:
+            res[name] = "timeout"
+    shutil.rmtree(out, ignore_errors=True)
+    return res
+
+
 def run(tier, seed):
     rep = Report("C09", tier, seed)
     res, shared, trace = model_check(tier)
@@ -132,11 +155,14 @@ def run(tier, seed):
         raise tlcrun.MachineryError("vacuity: no SolvePDE step was replayed")
     report_failures(rep, judge, ("C09_",))
     tr = traces(rep, tier, seed)
+    apa = apalache_inductive() if tier == "thorough" else {"status": "thorough tier only"}
+    if "FAILED" in apa.values():
+        raise tlcrun.MachineryError(f"Apalache did not discharge the inductive invariant of FVLifecycleInd: {apa}")
     cov = {
         "states": res["distinct"] + sim["states"] + tr["states"], "transitions": res["states"] + sim["states"] + tr["states"],
         "traces_validated_against_impl": len(behs) + len(ebehs) + tr["traces"],
         "state_graph_edges_replayed": len(ebehs), "evaluations": judge.steps + tr["events"],
-        "recorded_traces": tr,
+        "recorded_traces": tr, "apalache_inductive_invariant": apa,
         "distinct_nontrivial": len({canon_hash([[r["name"], r["args"]] for r in b]) for b in behs if len(b) > 3}),
         "rule": "exhaustive: FVLifecycle with 3 variables, 3 BC objects, all histories to the depth of the tier over the "
                 "C09 alphabet (sharing allowed); simulated: behaviours over the full alphabet replayed step by step "
